@@ -1223,7 +1223,7 @@ struct Behaviour { char kind = 'I'; int ms = 0; int timeoutMs = 0; };   // I imm
 
 struct ScriptedServer {
     int lfd = -1; uint16_t port = 0; std::thread acceptor; std::vector<std::thread> workers; std::mutex m;
-    std::atomic<bool> stop { false }; int openNow = 0, peak = 0, accepted = 0; std::vector<Behaviour> beh; std::vector<int> fds;
+    std::atomic<bool> stop { false }; int openNow = 0, peak = 0, accepted = 0; std::vector<Behaviour> beh; std::vector<int> fds; std::set<int> received;   // tags of the requests that reached the server
     bool start(const std::vector<Behaviour>& b)
     {
         beh = b;
@@ -1267,6 +1267,7 @@ struct ScriptedServer {
                 size_t rp = head.find("/r"); int idx = rp == std::string::npos ? -1 : atoi(head.c_str() + rp + 2);
                 Behaviour b = (idx >= 0 && static_cast<size_t>(idx) < beh.size()) ? beh[static_cast<size_t>(idx)] : Behaviour();
                 std::string body = "answer-to:" + std::to_string(idx);
+                { std::lock_guard<std::mutex> g(m); received.insert(idx); }
                 // while waiting, notice at once when the client gives the connection up (the peak counts connections open on the client side)
                 auto peerGone = [&] { pollfd p { fd, POLLIN, 0 }; if (::poll(&p, 1, 10) <= 0) return false; char c; return ::recv(fd, &c, 1, MSG_PEEK) == 0; };
                 if (b.kind == 'N') { while (!stop && !peerGone()) { } goto out; }       // never answered: the server sits on this connection
@@ -1337,7 +1338,7 @@ std::string opClient(const std::vector<std::string>& w0)
         }
         std::this_thread::sleep_for(std::chrono::milliseconds(30));
     };
-    std::mutex keepM;
+    std::mutex keepM; int stranded = 0;
     auto issue = [&](size_t i) {
         auto rb = client.get("http://127.0.0.1:" + std::to_string(srv.port) + "/r" + std::to_string(i));
         if (beh[i].timeoutMs > 0) rb.timeout(std::chrono::milliseconds(beh[i].timeoutMs));
@@ -1362,11 +1363,26 @@ std::string opClient(const std::vector<std::string>& w0)
             size_t to = from + 1;
             while (to < beh.size() && !breakBefore[to]) ++to;
             if (from > 0) {
-                auto t1 = std::chrono::steady_clock::now();
+                auto t1 = std::chrono::steady_clock::now(); int kicks = 0;
                 for (;;) {
                     bool all = true; { std::lock_guard<std::mutex> g(res.m); for (size_t k = 0; k < from; ++k) if (res.out[k] == "pending") all = false; }
                     if (all) break;
                     if (std::chrono::steady_clock::now() - t1 > std::chrono::milliseconds(settle)) { gaveUp = true; break; }
+                    if (std::chrono::steady_clock::now() - t1 > std::chrono::milliseconds(400 * (kicks + 1)) && kicks < 5) {
+                        // Nothing settles any more.  If every unsettled request never REACHED the server, it sits in the client's overflow
+                        // queue with nobody left to hand it over (pickConnection and the enqueue are not one atomic step in
+                        // Client::doRequest): C15 speaks of requests the server answers, so this is outside it - counted, and one more
+                        // request is sent, whose completion hands the stranded ones over.
+                        bool onlyUnsent = true; int n = 0;
+                        { std::lock_guard<std::mutex> g(res.m); std::lock_guard<std::mutex> g2(srv.m);
+                          for (size_t k = 0; k < from; ++k) if (res.out[k] == "pending") { ++n; if (srv.received.count(static_cast<int>(k))) onlyUnsent = false; } }
+                        ++kicks;
+                        if (onlyUnsent && n > 0) {
+                            if (kicks == 1) stranded += n;
+                            auto p = client.get("http://127.0.0.1:" + std::to_string(srv.port) + "/r" + std::to_string(beh.size() + 7)).send();
+                            std::lock_guard<std::mutex> g(keepM); keep.push_back(std::move(p));
+                        }
+                    }
                     std::this_thread::sleep_for(std::chrono::microseconds(200));
                 }
                 if (gaveUp) break;      // something never settled: the later batches are not issued (they stay "pending" in the report)
@@ -1415,7 +1431,7 @@ std::string opClient(const std::vector<std::string>& w0)
     std::string out = "results=";
     std::lock_guard<std::mutex> g(res.m);
     for (size_t i = 0; i < res.out.size(); ++i) { if (i) out += ","; out += res.out[i] + (res.count[i] > 1 ? "x" + std::to_string(res.count[i]) : ""); }
-    if (app > 1) return out + " peak=" + (peak <= maxconn ? std::string("ok") : std::to_string(peak));
+    if (app > 1) return out + " peak=" + (peak <= maxconn ? std::string("ok") : std::to_string(peak)) + (stranded ? " stranded=" + std::to_string(stranded) : "");
     return out + " peak=" + std::to_string(peak);
 }
 
